@@ -273,13 +273,26 @@ def gen_b(seed):
         sandbox.append(workload.sb_entry(name, data, rng.choice(workload.MODES)))
         names.append(name)
         meta.append({"path": name, "from": label, "tags": tags, "size": len(data), "digest": wire.digest(data)})
-    which = rng.choice(sorted(NOFIX_CFGS) + ["fix-only-empty", "fix-phase-0"])
+    which = rng.choice(sorted(NOFIX_CFGS) + ["fix-only-empty", "fix-phase-0", "fix-only-unfixable", "fix-only-unfixable"])
     argv = ["-p", str(rng.choice([1, 1, 2, 3])), "--fix"]
     if rng.random() < 0.3:
         argv.append("--backup")
     # no --style here: a style's per-rule settings take precedence over [rule][global]
     if which == "fix-only-empty":
         sandbox.append(workload.sb_entry("fixonly.json", common.json_bytes(FIX_ONLY_NOTHING)))
+        argv += ["--fix_only", "fixonly.json", "-f"] + names
+    elif which == "fix-only-unfixable":
+        # --fix_only restricts what is fixed, it never makes something fixable: the list names every
+        # rule (as an editor passing back the ids of a report would), while nothing is fixable -
+        # either because the configuration says `fixable: false` for everything, or because the
+        # list is limited to rules that are not fixable by design (the tree's own `fixable` flag)
+        if rng.random() < 0.5:
+            ids = [r[0] for r in runner.RULES if r[1] != 0]
+            sandbox.append(workload.sb_entry("cfg.json", common.json_bytes(NOFIX_CFGS["fixable-false"])))
+            argv += ["-c", "cfg.json"]
+        else:
+            ids = [r[0] for r in runner.RULES if r[1] != 0 and not r[4]]
+        sandbox.append(workload.sb_entry("fixonly.json", common.json_bytes({"fix": {"rule": {u: ["all"] for u in ids}}})))
         argv += ["--fix_only", "fixonly.json", "-f"] + names
     elif which == "fix-phase-0":
         argv += ["-fp", "0", "-f"] + names
@@ -540,6 +553,13 @@ def member(desc, env):
             for f in desc["sandbox"]:
                 if f["path"] == name and workload.sb_bytes(f) == common.json_bytes(FIX_ONLY_NOTHING):
                     return "b"
+                if f["path"] == name:
+                    try:
+                        listed = set(json.loads(workload.sb_bytes(f).decode())["fix"]["rule"])
+                    except Exception:
+                        return None
+                    if listed and listed <= {r[0] for r in runner.RULES if not r[4]}:
+                        return "b"  # only rules that are not fixable by design are selected
         if "-fp" in a and a[a.index("-fp") + 1] == "0":
             return "b"
     if "-c" in a:
